@@ -65,6 +65,8 @@ def handle (j : Json) : Except String Json := do
                        ("long", ofLines (pls.filter (·.length > 80))),
                        ("logical", ofLogical lg),
                        ("blank_lines", ofNat ((pls.dropLast.filter allBlank).length)),
+                       ("classes", Json.arr ((lineClasses false pls.dropLast).map fun (c, pl) =>
+                          Json.arr #[Json.str c, ofChars pl]).toArray),
                        ("bad_cont", Json.arr ((badContinuations false pls.dropLast).map fun (a, b) =>
                           Json.arr #[ofChars a, match b with | some q => ofChars q | none => Json.null]).toArray),
                        ("bare", match lg with | some ls => ofLines (ls.filter bareLine) | none => Json.null)]
